@@ -1,4 +1,5 @@
-import NA.Proofs.C09Top
+import NA.Proofs.C09Term
+import NA.Proofs.C09Saved
 import NA.Proofs.C09Skel
 import NA.Spec.SessDevice
 /-!
@@ -87,14 +88,19 @@ theorem run_terminates_loopfree (b : Backend) (hb : b = .asa ∨ b = .linux ∨ 
   unfold runProg
   rcases hb with rfl | rfl | rfl <;> exact noLoop_mode _ (by decide) env _ (by simp)
 
-/-- one round of the PAN-OS job poll (the body of the `for { … }` in `commit`) -/
-def panosPollRound : Sess :=
-  panosDoCmd .save (.lit "show jobs") ;;
-  .ite .err "err != nil" (.ret .keep ["err"]) .skip ;;
-  xmlUnmarshal ;;
-  .ite .err "err != nil" (.ret .keep ["err"]) .skip ;;
-  .ite (.flag .pend) "s.Result == \"PEND\"" .cont
-    (.ite (.flag .jobOk) "s.Result == \"OK\"" (.ret .nil ["nil"]) (.ret .err ["_"]))
+/-- IOS: `retries := 2; for { write memory … }` needs at most three rounds. -/
+theorem run_terminates_ios' (env : Env) : (runProg .ios env).mode ≠ .diverge := run_terminates_ios env
+
+/-- Every backend but PAN-OS: the run always ends, so a bad reply always gives exit status 1. -/
+theorem exit_nonzero_partial_nonpanos (b : Backend) (hb : b ≠ .panos) (env : Env)
+    (hf : faulted (badChecked b) (runProg b env).tr = true) : exitCode (runProg b env) = 1 := by
+  refine exit_nonzero_partial b env hf ?_
+  cases b with
+  | asa => exact run_terminates_loopfree .asa (by simp) env
+  | ios => exact run_terminates_ios env
+  | linux => exact run_terminates_loopfree .linux (by simp) env
+  | panos => exact absurd rfl hb
+  | nsx => exact run_terminates_loopfree .nsx (by simp) env
 
 /-- the poll loop says `continue` only when the device answered PEND -/
 theorem panos_poll_continue_only_on_pend (env : Env) (s : St) (hs : s.mode = .run)
@@ -131,10 +137,46 @@ theorem panos_commit_poll_total (env : Env) (s : St) (hs : s.mode = .run) (k : N
   rw [hst]; decide
 
 /-- the loop of the model is the loop of the program -/
-theorem panosPollRound_is_commit_loop : ∃ pre, panosCommitBody = (pre ;; .loopFuel panosPollRound) ∨
-    ∃ a b c, panosCommitBody = (a ;; b ;; c ;; .loopFuel panosPollRound) := by
-  exact ⟨.skip, Or.inr ⟨_, _, _, rfl⟩⟩
+theorem panosPollRound_is_commit_loop : panosCommitBody =
+    (panosCommitHead ;; xmlUnmarshal ;; .ite .err "err != nil" (.ret .keep ["err"]) .skip ;; .loopFuel panosPollRound) :=
+  panosCommitBody_eq
 
+/-! ## ok_only_if_all_accepted_and_saved, the remaining halves (per function)
+
+"Accepted" is `ok_only_if_all_accepted_partial` above.  "Everything was sent" and "the save was
+confirmed" are proved for the functions that do it, for every device and every script; composing
+them with the whole run (`ApplyCommands` returned nil ⇒ `do-approve` OK) is checked by the oracle on
+every fault-free run of the harness, not proved. -/
+
+/-- If the loop over the change script ends in normal mode, every packet of the script is on the
+wire, in order, exactly once (ASA / IOS / Linux `cmd`, NSX `sendRequest`). -/
+theorem ok_only_if_all_sent (env : Env) (s : St) (hm : s.mode = .run) :
+    ((exec (.forEach (asaCmd .change .cur ["_"])) env s).mode = .run →
+      changeSends (exec (.forEach (asaCmd .change .cur ["_"])) env s).tr = changeSends s.tr ++ s.plan)
+    ∧ ((exec (.forEach (iosCmd .change .cur ["_"])) env s).mode = .run →
+      changeSends (exec (.forEach (iosCmd .change .cur ["_"])) env s).tr = changeSends s.tr ++ s.plan)
+    ∧ ((exec (.forEach (linuxCmd .change .cur ["_"])) env s).mode = .run →
+      changeSends (exec (.forEach (linuxCmd .change .cur ["_"])) env s).tr = changeSends s.tr ++ s.plan)
+    ∧ ((exec (.forEach (nsxSendRequest .change .cur ;; .ite .err "err != nil" (.ret .keep ["err"]) .skip)) env s).mode = .run →
+      changeSends (exec (.forEach (nsxSendRequest .change .cur ;; .ite .err "err != nil" (.ret .keep ["err"]) .skip)) env s).tr
+        = changeSends s.tr ++ s.plan) :=
+  ⟨foreach_sends_all_asa env s hm, foreach_sends_all_ios env s hm, foreach_sends_all_linux env s hm,
+   foreach_sends_all_nsx env s hm⟩
+
+/-- PAN-OS: the same, except that net/http may put a command on the wire twice (F-C09c). -/
+theorem ok_only_if_all_sent_panos (env : Env) (s : St) (hm : s.mode = .run)
+    (hend : (exec (.forEach (panosDoCmd .change .cur ;; .ite .err "err != nil" (.ret .err ["_"]) .skip)) env s).mode = .run) :
+    ∃ new, changeSends (exec (.forEach (panosDoCmd .change .cur ;; .ite .err "err != nil" (.ret .err ["_"]) .skip)) env s).tr
+        = changeSends s.tr ++ new ∧ List.Sublist s.plan new :=
+  foreach_sends_all_panos env s hm hend
+
+/-- ASA `write memory` / IOS `writeMem` come back without abort, and PAN-OS `commit` returns nil,
+only after the device confirmed: `[OK]`, resp. "no changes to commit" or job result OK. -/
+theorem ok_only_if_saved (env : Env) (s : St) (hm : s.mode = .run) :
+    ((exec iosWriteMem env s).mode = .run → saveConfirmed (exec iosWriteMem env s).tr = true)
+    ∧ ((exec panosCommit env s).mode = .run → (exec panosCommit env s).errv = false →
+        saveConfirmed (exec panosCommit env s).tr = true) :=
+  ⟨ios_saved_if_completes env s hm, panos_saved_if_commit_returns_nil env s hm⟩
 
 /-! ## the property as stated is false of the unchanged code: three classes of counterexamples -/
 
@@ -229,7 +271,8 @@ example : (runProg .panos { dev := mkDev .panos { pend := 1000 } none "-", plan 
 def obligations : List Lean.Name := [
   ``no_change_after_fault_partial, ``no_save_after_fault_partial, ``exit_nonzero_partial,
   ``status_failed_or_diff_partial, ``history_end_failed_partial, ``ok_only_if_all_accepted_partial,
-  ``run_terminates_loopfree, ``panos_poll_continue_only_on_pend, ``panos_commit_poll_total,
+  ``ok_only_if_all_sent, ``ok_only_if_all_sent_panos, ``ok_only_if_saved, ``asa_saved_if_completes,
+  ``run_terminates_loopfree, ``run_terminates_ios', ``exit_nonzero_partial_nonpanos, ``panos_poll_continue_only_on_pend, ``panos_commit_poll_total,
   ``no_change_after_fault_counterexample_ios, ``config_retrieval_counterexample_asa,
   ``closed_connection_counterexample_panos,
   ``NA.Spec.C09.badChecked_imp_badFull,
